@@ -13,6 +13,16 @@ from . import axioms as AX
 
 CRATE = os.path.join(C.ROOT, "symx")
 TARGET = os.path.join(C.BUILD, "symx")
+if C.REPO != "/repo":
+    import hashlib
+    _alt = os.path.join(C.BUILD, "alt_" + hashlib.sha1(C.REPO.encode()).hexdigest()[:8])
+    os.makedirs(_alt, exist_ok=True)
+    subprocess.run(["rsync", "-a", "--delete", "--exclude", "target", "--exclude", "Cargo.lock", CRATE + "/", os.path.join(_alt, "symx") + "/"], check=True)
+    _ct = os.path.join(_alt, "symx", "Cargo.toml")
+    _txt = open(_ct).read().replace('path = "/repo/palette"', f'path = "{C.REPO}/palette"')
+    open(_ct, "w").write(_txt)
+    CRATE = os.path.join(_alt, "symx")
+    TARGET = os.path.join(_alt, "symx_target")
 BIN = os.path.join(TARGET, "release", "symx")
 ENV = dict(os.environ, CARGO_NET_OFFLINE="true", CARGO_TERM_COLOR="never", CARGO_TARGET_DIR=TARGET)
 ENV.pop("RUSTFLAGS", None)
